@@ -63,6 +63,20 @@ class NP:
             return a
         return _np.empty(shape, dtype, **kw)
 
+    def asarray(self, a, dtype=None, **kw):
+        """float arrays with symbolic entries are object arrays in the lifted run: a request for dtype float keeps numpy's contract
+        (an array that already has the requested type is returned AS IS, not copied; lists and the like give a new array)"""
+        if dtype is not None and _is_float_dtype(dtype) and has_sym(_np.asarray(a, dtype=object)):
+            if isinstance(a, _np.ndarray) and a.dtype == object:
+                return a
+            return _np.asarray(a, dtype=object)
+        return _np.asarray(a, dtype=dtype, **kw) if dtype is not None else _np.asarray(a, **kw)
+
+    def array(self, a, dtype=None, **kw):
+        if dtype is not None and _is_float_dtype(dtype) and has_sym(_np.asarray(a, dtype=object)):
+            return _np.array(a, dtype=object, **{k: v for k, v in kw.items() if k in ('copy', 'ndmin')})
+        return _np.array(a, dtype=dtype, **kw) if dtype is not None else _np.array(a, **kw)
+
     def isnan(self, a):
         if isinstance(a, Sym):
             return False
